@@ -344,6 +344,11 @@ func (w *World) verifyFunc(u *Unit, name string) (ex *Exec, err error) {
 			ex.modelVars = append(ex.modelVars, v.Term.Op)
 		}
 	}
+	for i, v := range entry {
+		if v.Term != nil && isByteSlice(v.T) {
+			ex.modelSlices = append(ex.modelSlices, modelSlice{Name: pnames[i], S: v.Term, Mem: ex.mem(st, types.Typ[types.Byte])})
+		}
+	}
 	// contract binding
 	if fs != nil {
 		if len(fs.Params) != len(entry) {
@@ -828,6 +833,9 @@ func dischargeOne(ex *Exec, ob *Obligation, opts dischargeOpts) {
 			ob.Verdict = "counterexample"
 			ob.Solver = best.Solver
 			ob.Model = parseGetValue(best.Output)
+			if len(q.Slices) > 0 {
+				ex.projectInputs(ob, q, hyps, opts, false)
+			}
 			ob.Detail = fmt.Sprintf("path %s: %s", q.Path, firstLines(best.Output, 1))
 			ob.failScript = script
 			return
@@ -836,6 +844,20 @@ func dischargeOne(ex *Exec, ob *Obligation, opts dischargeOpts) {
 			ob.Solver = best.Solver
 			ob.Detail = fmt.Sprintf("path %s: %s", q.Path, best.Output)
 			ob.failScript = script
+			if len(q.Slices) > 0 {
+				// no model: look for a candidate input in the quantifier-free
+				// relaxation; only a replay on the real code can confirm it
+				var qf []*Term
+				for _, h := range hyps {
+					if !hasQuantifier(h) {
+						qf = append(qf, h)
+					}
+				}
+				ex.projectInputs(ob, q, qf, opts, true)
+				if len(ob.Model) > 0 {
+					ob.Model["input.source"] = "candidate from the quantifier-free relaxation of the failed obligation (not a model of the full formula)"
+				}
+			}
 			return
 		}
 	}
